@@ -405,6 +405,7 @@ func (e *Enc) byteRegion(st *State, obj *smt.Term) *smt.Term {
 func (e *Enc) stringOfBytes(st *State, sl *smt.Term) *smt.Term {
 	c := e.C
 	arr := e.byteRegion(st, e.slObj(sl))
+	e.work(st, e.slLen(sl)) // string(b) copies the bytes
 	id := c.App("str_of_bytes", smt.BV(StrW), arr, e.slOff(sl), e.slLen(sl))
 	e.assume(st, c.Eq(c.App("strlen", smt.BV(64), id), e.slLen(sl)))
 	// content axiom, quantified: forall i < len: strbyte(id,i) = arr[off+i]
